@@ -392,6 +392,21 @@ def LinOpState.run (s : LinOpState) : List LinOpOp → LinOpState
   | [] => s
   | o :: os => LinOpState.run (s.step o) os
 
+/-- `MatrixOperator` (the one class of `scico/linop` that defines `adj`, `gram`, `gram_op` itself: `A.conj().T @ y`,
+    `A.conj().T @ A @ x`, a new `MatrixOperator`): these three never read or create the private slots; `jit()` is the
+    inherited one (derives an adjoint, creates `_gram`, wraps all three) and `__call__` goes through `_eval`. -/
+def LinOpState.stepOwn (s : LinOpState) : LinOpOp → LinOpState
+  | .jit => s.jit
+  | _ => s
+
+def LinOpState.runOwn (s : LinOpState) : List LinOpOp → LinOpState
+  | [] => s
+  | o :: os => LinOpState.runOwn (s.stepOwn o) os
+
+/-- Specification: the slots of a `MatrixOperator` after `n` calls of `jit()` -/
+def specOwnSlots (n : Nat) : LinOpState :=
+  if n = 0 then ⟨0, none, none⟩ else ⟨n, some (.derived, n), some n⟩
+
 /-- Specification: the adjoint callable an object of this variant uses, whenever it has one -/
 def specAdjSrc : LinOpVariant → AdjSrc
   | .adjFn => .given
@@ -479,7 +494,11 @@ def codeSources : List (String × List String) := [
   ("LinearOperator.jit", ["if self._adj is None:", "    self._set_adjoint()", "if self._gram is None:", "    self._set_gram()", "self._eval = jax.jit(self._eval)", "self._adj = jax.jit(self._adj)", "self._gram = jax.jit(self._gram)"]),
   ("LinearOperator._set_adjoint", ["with jax.ensure_compile_time_eval():", "    adj_fun = linear_adjoint(self.__call__, snp.zeros(self.input_shape, dtype=self.input_dtype))", "self._adj = lambda x: adj_fun(x)[0]"]),
   ("LinearOperator._set_gram", ["self._gram = lambda x: self.adj(self(x))"]),
-  ("Operator.jit", ["self._eval = jax.jit(self._eval)"])
+  ("Operator.jit", ["self._eval = jax.jit(self._eval)"]),
+  ("MatrixOperator._eval", ["return self.A @ other"]),
+  ("MatrixOperator.adj", ["if not isinstance(y, Operator) and y.shape != self.output_shape:", "    raise ValueError(f'Shapes do not conform: input array with shape {y.shape} does not match MatrixOperator output_shape {self.output_shape}.')", "return self.A.conj().T @ y"]),
+  ("MatrixOperator.gram", ["return self.A.conj().T @ self.A @ other"]),
+  ("MatrixOperator.gram_op", ["return MatrixOperator(A=self.A.conj().T @ self.A, input_cols=self.input_cols)"])
 ]
 
 /-- which classes of `scico/linop` (and the operators of `functional/_tvnorm.py`) define the members the jit-slot model (§6) talks
